@@ -72,6 +72,9 @@ func c14Specs() []c14Spec {
 	dir1 := []SOp{attach0, sop("walk", 0, p9p.Fid(1), []string{"a"})}
 	return []c14Spec{
 		{Name: "clunk|read", Setup: base, Tasks: [][]SOp{{sop("clunk", 1)}, {sop("read", 1)}}},
+		{Name: "read|read", Setup: base, Tasks: [][]SOp{{sop("read", 1)}, {sop("read", 1)}}},
+		{Name: "read|write", Setup: base, Tasks: [][]SOp{{sop("read", 1)}, {sop("write", 1)}}},
+		{Name: "remove|read", Setup: base, Tasks: [][]SOp{{sop("remove", 1)}, {sop("read", 1)}}},
 		{Name: "clunk|stat", Setup: base, Tasks: [][]SOp{{sop("clunk", 1)}, {sop("stat", 1)}}},
 		{Name: "clunk|write|stat", Setup: base, Tasks: [][]SOp{{sop("clunk", 1)}, {sop("write", 1)}, {sop("stat", 1)}}},
 		{Name: "clunk|walk-from", Setup: dir1, Tasks: [][]SOp{{sop("clunk", 1)}, {sop("walk", 1, p9p.Fid(2), []string{"b"})}}},
